@@ -44,7 +44,7 @@ class NameValueRecord(collections.MutableMapping):
         else:
             self.raw += string
 
-        lines = unfold_lines(string).splitlines()
+        lines = split_lines(unfold_lines(string))
         for line in lines:
             if line:
                 if ':' not in line:
@@ -166,6 +166,21 @@ def guess_line_ending(string):
         return '\n'
 
 
+def split_lines(string):
+    '''Split the text at CRLF, LF or CR.
+
+    Unlike :meth:`str.splitlines`, control characters such as form feed,
+    FS/GS/RS and the Latin-1 next-line character (0x85) do not end a line:
+    inside a field value they are ordinary data.
+    '''
+    lines = string.replace('\r\n', '\n').replace('\r', '\n').split('\n')
+
+    if lines and not lines[-1]:
+        del lines[-1]
+
+    return lines
+
+
 def unfold_lines(string):
     '''Join lines that are wrapped.
 
@@ -173,7 +188,7 @@ def unfold_lines(string):
     line.
     '''
     assert isinstance(string, str), 'Expect str. Got {}'.format(type(string))
-    lines = string.splitlines()
+    lines = split_lines(string)
     line_buffer = io.StringIO()
 
     for line_number in range(len(lines)):
